@@ -289,6 +289,10 @@ func (l *listener) Stop() error {
 	conns := l.conns
 	l.conns = nil
 	ln := l.ln
+	// The registry is dropped, so removeConn doesn't account the connections
+	// which are still open any more: do it here.
+	l.stats.CxDestroyTotal.Add(uint64(len(conns)))
+	l.stats.CxActive.Sub(uint64(len(conns)))
 	l.mu.Unlock()
 
 	if ln != nil {
